@@ -434,7 +434,7 @@ class Compiler(object):
             ['SEQUENCE', 'SET'])
 
         for type_descriptor in sequences_and_sets:
-            for member in type_descriptor['members']:
+            for member in flatten(type_descriptor['members']):
                 if member == EXTENSION_MARKER:
                     continue
 
